@@ -332,3 +332,69 @@ func VerifC06BigInv() {
 	verifAssert(twice == 0, "transaction-requested-twice-from-one-peer")
 	verifReach("done")
 }
+
+func init() {
+	verifHarnesses["VerifC06SaveFailure"] = VerifC06SaveFailure
+}
+
+// failingSaver counts like countingProcessor and lets the k-th SaveTx call fail.
+type failingSaver struct {
+	countingProcessor
+	failAt int
+	saves  int
+}
+
+func (p *failingSaver) SaveTx(ctx context.Context, tx *wire.MsgTx) error {
+	k := p.saves
+	p.saves++
+	if k == p.failAt {
+		return errSpy
+	}
+	return p.countingProcessor.SaveTx(ctx, tx)
+}
+
+// VerifC06SaveFailure: delivered transactions reach the processor exactly once also when the
+// processor's answers vary and saving a relevant transaction fails at any point.
+func VerifC06SaveFailure() {
+	m := NewTxManager(40 * time.Millisecond)
+	proc := &failingSaver{failAt: pick("save-fails-at", 4) - 1} // -1: never
+	proc.processed = map[bitcoin.Hash32]int{}
+	proc.saved = map[bitcoin.Hash32]int{}
+	rel := []bool{nondetBool("relevant0"), nondetBool("relevant1"), nondetBool("relevant2")}
+	txs := []*wire.MsgTx{mkTx(21), mkTx(22), mkTx(23)}
+	proc.relevantF = func(h bitcoin.Hash32) bool {
+		for i, tx := range txs {
+			if h.Equal(tx.TxHash()) {
+				return rel[i]
+			}
+		}
+		return false
+	}
+	m.SetTxProcessor(proc)
+	m.SetTxSaver(proc)
+	ctx := ctxbg()
+	interrupt := make(chan interface{})
+	done := make(chan error, 1)
+	go func() { done <- m.Run(ctx) }()
+	id0, id1 := uuid.New(), uuid.New()
+	for _, tx := range txs {
+		m.AddTxID(ctx, id0, *tx.TxHash())
+		m.AddTx(ctx, interrupt, id0, tx)
+		m.AddTx(ctx, interrupt, id1, tx) // a second peer delivers it too
+	}
+	verifSettle()
+	for i, tx := range txs {
+		n := proc.processed[*tx.TxHash()]
+		verifAssert(n <= 1, "transaction-processed-more-than-once")
+		if proc.failAt == -1 {
+			verifAssert(n == 1, "transaction-not-processed-exactly-once")
+			want := 0
+			if rel[i] {
+				want = 1
+			}
+			verifAssert(proc.saved[*tx.TxHash()] == want, "relevant-transaction-not-saved-exactly-once")
+		}
+	}
+	verifObserve("save-failure", proc.failAt)
+	verifReach("done")
+}
